@@ -1208,16 +1208,16 @@ def Clause (q : Peer) (pool : List Peer) (auths : List Auth) : Prop :=
       (c.status = .consensus → asum (fC q.owner) q.id auths ≤ q.totalPos))
 
 /-- one iteration of the election loops -/
-theorem elect_step (b : Book) (pool : List Peer) (auths auths1 : List Auth) (q : Peer) (toCons : Bool)
+theorem elect_step (b : Book) (pool : List Peer) (auths auths1 : List Auth) (q : Peer) (k : Nat)
     (hi : CI b pool auths) (hq : findPeer pool q.id = some q) (hact : q.status.active = true)
-    (hm : mapAuths (if toCons then (if q.status == .consensus then consToCons else unConsToCons)
+    (hm : mapAuths (if k > 0 then (if q.status == .consensus then consToCons else unConsToCons)
                     else (if q.status == .consensus then consToUnCons else unConsToUnCons)) q.id auths = .ok auths1) :
-    let pool1 := setPeer pool { q with status := if toCons then .consensus else .candidate }
+    let pool1 := setPeer pool { q with status := if k > 0 then .consensus else .candidate }
     CI b pool1 auths1 ∧ Clause q pool1 auths1 ∧
     (∀ z : Peer, z.id ≠ q.id → findPeer pool1 z.id = findPeer pool z.id) ∧
     (∀ (g : Auth → Nat) (p' : Nat), p' ≠ q.id → asum g p' auths1 = asum g p' auths) := by
   intro pool1
-  generalize hf : (if toCons then (if q.status == .consensus then consToCons else unConsToCons)
+  generalize hf : (if k > 0 then (if q.status == .consensus then consToCons else unConsToCons)
                     else (if q.status == .consensus then consToUnCons else unConsToUnCons)) = f at hm
   have hT : IsTrans f := by
     rw [← hf]; split <;> split
@@ -1225,12 +1225,12 @@ theorem elect_step (b : Book) (pool : List Peer) (auths auths1 : List Auth) (q :
     · exact isTrans_unConsToCons
     · exact isTrans_consToUnCons
     · exact isTrans_unConsToUnCons
-  let q' : Peer := { q with status := if toCons then .consensus else .candidate }
+  let q' : Peer := { q with status := if k > 0 then .consensus else .candidate }
   have hq' : findPeer pool q'.id = some q := hq
   have hmem := mem_setPeer hi.nodup hq'
   obtain ⟨hqm, _⟩ := findPeer_some_mem hq
   have hq'act : q'.status.active = true := by
-    show (if toCons then Status.consensus else Status.candidate).active = true
+    show (if k > 0 then Status.consensus else Status.candidate).active = true
     split <;> rfl
   have hother : ∀ (g : Auth → Nat) (p' : Nat), p' ≠ q.id → asum g p' auths1 = asum g p' auths :=
     fun g p' hne => mapAuths_asum_other hm g hT.peer hne
@@ -1284,15 +1284,71 @@ theorem elect_step (b : Book) (pool : List Peer) (auths auths1 : List Auth) (q :
         · rw [(unConsToCons_fC _ x x' hfx).2 (hw x hx hxp)]; omega
         · exact unConsToUnCons_fD _ x x' hfx (hw x hx hxp)
       · intro hcs
-        have htc : toCons = true := by
-          cases toCons
-          · simp [q'] at hcs
-          · rfl
+        have htc : k > 0 := by
+          by_cases hk : k > 0
+          · exact hk
+          · simp [q', hk] at hcs
         rw [htot]
         apply mapAuths_asum_le hm _ _ hT.peer
         intro x _ _ x' hfx
         rw [← hf] at hfx
         simp only [hne, htc, if_true] at hfx
         exact (unConsToCons_fC _ x x' hfx).1
+
+theorem sortPeers_perm (l : List Peer) : (sortPeers l).Perm l := by
+  have ins : ∀ (p : Peer) (l : List Peer), (insertPeer p l).Perm (p :: l) := by
+    intro p l
+    induction l with
+    | nil => exact List.Perm.refl _
+    | cons x r ih =>
+      simp only [insertPeer]
+      split
+      · exact List.Perm.refl _
+      · exact (List.Perm.cons x ih).trans (List.Perm.swap p x r)
+  induction l with
+  | nil => exact List.Perm.refl _
+  | cons x r ih => exact (ins x (sortPeers r)).trans (List.Perm.cons x ih)
+
+theorem electLoop_spec (b : Book) (k : Nat) (L : List Peer) (pool pool' : List Peer) (auths auths' : List Auth)
+    (h : electLoop k L (pool, auths) = .ok (pool', auths'))
+    (hi : CI b pool auths) (hL : ∀ q ∈ L, q.status.active = true ∧ findPeer pool q.id = some q) (hnd : (ids L).Nodup) :
+    CI b pool' auths' ∧ (∀ q ∈ L, Clause q pool' auths') ∧
+    (∀ z : Peer, z.id ∉ ids L → Clause z pool auths → Clause z pool' auths') := by
+  induction L generalizing k pool auths with
+  | nil =>
+    simp [electLoop] at h; obtain ⟨h1, h2⟩ := h; subst h1; subst h2
+    exact ⟨hi, by simp, fun _ _ hc => hc⟩
+  | cons q r ih =>
+    obtain ⟨hact, hq⟩ := hL q (by simp)
+    simp only [ids, List.map_cons, List.nodup_cons] at hnd
+    simp only [electLoop, hq] at h
+    split at h
+    · cases h
+    · rename_i auths1 hm
+      obtain ⟨s1, s2, s3, s4⟩ := elect_step b pool auths auths1 q k hi hq hact hm
+      have frame1 : ∀ z : Peer, z.id ≠ q.id → Clause z pool auths →
+          Clause z (setPeer pool { q with status := if k > 0 then .consensus else .candidate }) auths1 := by
+        intro z hne ⟨c, c1, c2, c3, c4, c5⟩
+        refine ⟨c, by rw [s3 z hne]; exact c1, c2, c3, ?_, ?_⟩
+        · intro hs; rw [s4 _ _ hne]; exact c4 hs
+        · intro hs; obtain ⟨d1, d2⟩ := c5 hs
+          exact ⟨by rw [s4 _ _ hne]; exact d1, fun hc => by rw [s4 _ _ hne]; exact d2 hc⟩
+      have hr : ∀ z ∈ r, z.status.active = true ∧
+          findPeer (setPeer pool { q with status := if k > 0 then .consensus else .candidate }) z.id = some z := by
+        intro z hz
+        obtain ⟨a1, a2⟩ := hL z (by simp [hz])
+        have hne : z.id ≠ q.id := by
+          intro e; apply hnd.1; rw [← e]; exact List.mem_map_of_mem hz
+        exact ⟨a1, by rw [s3 z hne]; exact a2⟩
+      obtain ⟨r1, r2, r3⟩ := ih (k - 1) _ _ h s1 hr hnd.2
+      refine ⟨r1, ?_, ?_⟩
+      · intro z hz
+        simp only [List.mem_cons] at hz
+        rcases hz with e | hz
+        · subst e; exact r3 z hnd.1 s2
+        · exact r2 z hz
+      · intro z hz hc
+        simp only [ids, List.map_cons, List.mem_cons, not_or] at hz
+        exact r3 z hz.2 (frame1 z hz.1 hc)
 
 end OntVerif.Proofs.GovInv
